@@ -1,2 +1,12 @@
-import Usual.C05.MDInst
-/-! placeholder -/
+import UsualProofs.C05.VecA
+import UsualProofs.C05.VecB
+import UsualProofs.C05.VecC
+import UsualProofs.C05.VecD
+import UsualProofs.C05.VecE
+import UsualProofs.C05.VecF
+import UsualProofs.C05.VecG
+import UsualProofs.C05.VecT
+/-! C05 known-answer tests and constant-table checks, split over modules VecA … VecT so that
+    lake checks them in parallel (each `decide +kernel` evaluates a model function inside the
+    kernel).  These are TESTS of the transcription of the round functions and of the regenerated
+    tables, not property theorems. -/
